@@ -95,7 +95,7 @@ def run_mc(module, cfg, workers=8, timeout=900, expect_violation=False, heap="12
     t0 = time.time()
     timed_out = False
     try:
-        rc, out = sh(tlc_cmd(module, cfg_path, md + "/states", workers, heap=heap), timeout=timeout, cwd=SPEC)
+        rc, out = sh(tlc_cmd(module, cfg_path, md + "/states", workers, heap=heap, extra=["-coverage", "1"]), timeout=timeout, cwd=SPEC)
     except subprocess.TimeoutExpired as e:
         # a bounded exploration: report what was covered, it is not exhaustive
         out = e.output if isinstance(e.output, str) else (e.output or b"").decode(errors="replace")
@@ -120,8 +120,12 @@ def run_mc(module, cfg, workers=8, timeout=900, expect_violation=False, heap="12
         log(out[-3000:])
         raise ToolError(f"TLC failed on {cfg}")
     actions = re.findall(r"State \d+: <(\w+(?:\([^)]*\))?)", out)
+    # per-action coverage (distinct states produced : states generated), last report wins
+    cov = {}
+    for name, d, t in re.findall(r"(?m)^<(\w+) line \d+, col \d+ to line \d+, col \d+ of module \w+>: (\d+):(\d+)", out):
+        cov[name] = [int(d), int(t)]
     return dict(cfg=tag, states=states, transitions=trans, ok=finished, complete=finished, violated=violated, wall=round(wall, 1),
-                cex_actions=actions, out=out)
+                cex_actions=actions, action_coverage=cov, actions_never_taken=sorted(k for k, v in cov.items() if v[1] == 0), out=out)
 
 
 RE_VIOL = re.compile(r'"(VIOL|DRIFT)\|(-?\d+)\|(-?\d+)\|(\d+)\|([^|"]*)\|([^|"]*)\|([^|"]*)"')
@@ -238,3 +242,35 @@ def write_replay(pid, payload):
 def host_info():
     rc, out = sh("grep -o -w -E 'avx|avx2|fma|sse|sse4_1' /proc/cpuinfo | sort -u | tr '\\n' ' '")
     return dict(cpu_features=out.strip(), endian=sys.byteorder, cores=os.cpu_count())
+
+
+def model_histories(out_file, num=400, depth=80, seed=1, cfg="MC_Replay.cfg", max_histories=400):
+    """Specification -> implementation: behaviours of Arroy.tla (through Replay.tla, tlc -simulate) as one JSON
+    history per line; prefixes of longer histories are dropped."""
+    md = workdir(f"replay_{os.getpid()}")
+    cmd = ["java", "-XX:+UseParallelGC", "-Xmx3g", "-Xss1g", "-cp", JAR, "tlc2.TLC", "-workers", "1", "-simulate", f"num={num}",
+           "-depth", str(depth), "-seed", str(seed), "-metadir", md, "-cleanup", "-noGenerateSpecTE", "-config", f"{SPEC}/{cfg}", "Replay.tla"]
+    try:
+        rc, out = sh(cmd, timeout=600, cwd=SPEC)
+    except subprocess.TimeoutExpired as e:
+        out = e.output if isinstance(e.output, str) else (e.output or b"").decode(errors="replace")
+    shutil.rmtree(md, ignore_errors=True)
+    lines = set()
+    for m in re.findall(r'"REPLAY (\[.*?\])"\n', out):
+        lines.add(m.replace('\\"', '"'))
+    hs = sorted(lines, key=len, reverse=True)
+    kept = []
+    for h in hs:
+        body = h[:-1]
+        if any(k.startswith(body) for k in kept):
+            continue
+        kept.append(h)
+        if len(kept) >= max_histories:
+            break
+    if not kept:
+        log(out[-2000:])
+        raise ToolError("TLC produced no behaviour to replay")
+    with open(out_file, "w") as f:
+        for h in kept:
+            f.write(h + "\n")
+    return len(kept), len(lines)
